@@ -929,6 +929,8 @@ def build_jobs(res, r, thorough):
   for i, (lab, src) in enumerate(edge):
     if thorough or (i // 2) % 3 == res.seed % 3:
       jobs.append((lab, "edge-constants", src, {"check": False}))
+  for lab, src in c15_gen.union_shape_programs():
+    jobs.append((lab, "edge-constants", src, {"check": False}))
   kinds = collections.Counter()
   progs = []
   for i in range(n_prog):
